@@ -54,7 +54,11 @@ def gen_pd_cases(ctx):
         mode = r.choice(["mat", "quat"])
         if mode == "quat":
             ref, est = mc.to_quat_rows(ref), mc.to_quat_rows(est)
-        yield {"kind": "pd", "stream": "random", "rel": r.choice(mc.RELS[:6]), "mode": mode, "ref": ref, "est": est}
+        if r.random() < 0.3:
+            k = r.randrange(n)
+            est[k] = list(est[max(k - 1, 0)])      # repeated pose (aliasing flavour shares the object)
+        yield {"kind": "pd", "stream": "random", "rel": r.choice(mc.RELS[:6]), "mode": mode, "ref": ref, "est": est,
+               "flavour": r.choice(mc.FLAVOURS), "preread": list(r.choice(mc.PREREADS))}
     # hard rotations
     for _ in range(120 if not T else 1200):
         n = r.randint(1, 6)
@@ -65,6 +69,14 @@ def gen_pd_cases(ctx):
             ref, est = mc.to_quat_rows(ref), mc.to_quat_rows(est)
         yield {"kind": "pd", "stream": "hard-" + pert, "rel": r.choice(["angle_rad", "angle_deg", "rot_part", "full"]),
                "mode": mode, "ref": ref, "est": est}
+    # structured sizes (L5)
+    sizes = [1, 2, 3, 4, 7, 8, 9, 15, 16, 17, 31, 32, 33, 63, 64, 65, 127, 128, 129, 255, 256, 257]
+    if T:
+        sizes += [511, 512, 513, 1023, 1024, 1025, 4095, 4096, 4097]
+    for n in sizes:
+        ref, est = mc.gen_pair_lists(r, n, 10.0, [0.0, 0.0, 0.0], "uniform", "mixed")
+        yield {"kind": "pd", "stream": "sizes", "rel": r.choice(["trans_part", "full", "angle_rad", "rot_part"]), "mode": "mat",
+               "ref": ref, "est": est, "flavour": r.choice(mc.FLAVOURS), "preread": list(r.choice(mc.PREREADS))}
     # long
     for rel, n in (("trans_part", 1000 if not T else 10000), ("angle_deg", 300 if not T else 10000),
                    ("full", 300 if not T else 3000)):
@@ -142,13 +154,18 @@ def run_ape(rel, ref_path, est_path, m=None):
 
 def run_impl_pd(case):
     rel, mode = case["rel"], case["mode"]
-    ref, est = mc.make_path(mode, case["ref"]), mc.make_path(mode, case["est"])
-    out = {"seen_ref": mc.seen_poses(ref), "seen_est": mc.seen_poses(est)}
-    out["res"] = run_ape(rel, ref, est)
+    fl, pre = case.get("flavour", "plain"), tuple(case.get("preread", ()))
+    out = {"seen_ref": mc.twin_poses(mode, case["ref"]), "seen_est": mc.twin_poses(mode, case["est"])}
+    try:
+        ref, est = mc.make_path(mode, case["ref"], flavour=fl, preread=pre), mc.make_path(mode, case["est"], flavour=fl, preread=pre)
+        out["res"] = run_ape(rel, ref, est)
+    except Exception as e:  # noqa (L12)
+        out["res"] = {"err": "EXC:" + type(e).__name__}
     n = len(case["ref"])
     if "ok" in out["res"] and n == len(case["est"]) and n <= 40 and case["stream"] != "non-so3":
         # metamorphic runs for the oracle: coincide, swap, common rigid motion
-        out["self"] = run_ape(rel, mc.make_path(mode, case["ref"]), mc.make_path(mode, case["ref"]))
+        same = mc.make_path(mode, case["ref"], flavour=fl)
+        out["self"] = run_ape(rel, same, same) if fl == "alias" else run_ape(rel, mc.make_path(mode, case["ref"]), mc.make_path(mode, case["ref"]))
         out["swap"] = run_ape(rel, mc.make_path(mode, case["est"]), mc.make_path(mode, case["ref"]))
         import random
         rr = random.Random(repr(case["ref"][0]))
